@@ -32,12 +32,12 @@ PROPS["C12"] = {
 PROPS["C15"] = {
     "level": "model_checking",
     "harnesses": [
-        {"name": "c15_events_2x2", "fn": "c15_events", "params": {"quick": {"events": 4, "ops": 2, "nodes": 2}, "thorough": {"events": 6, "ops": 2, "nodes": 2}}, "covers": ["ack.counted", "ack.duplicate-or-foreign"]},
-        {"name": "c15_events_3x3", "fn": "c15_events", "params": {"quick": {"events": 3, "ops": 3, "nodes": 3}, "thorough": {"events": 5, "ops": 3, "nodes": 3}}},
-        {"name": "c15_events_1x2", "fn": "c15_events", "params": {"quick": {"events": 5, "ops": 1, "nodes": 2}, "thorough": {"events": 7, "ops": 1, "nodes": 2}}},
+        {"name": "c15_events_2x2", "fn": "c15_events", "params": {"quick": {"events": 4, "ops": 2, "nodes": 2}, "thorough": {"events": 5, "ops": 2, "nodes": 2}}, "covers": ["ack.counted", "ack.duplicate-or-foreign"]},
+        {"name": "c15_events_3x3", "fn": "c15_events", "params": {"quick": {"events": 3, "ops": 3, "nodes": 3}, "thorough": {"events": 4, "ops": 3, "nodes": 3}}},
+        {"name": "c15_events_1x2", "fn": "c15_events", "params": {"quick": {"events": 5, "ops": 1, "nodes": 2}, "thorough": {"events": 6, "ops": 1, "nodes": 2}}},
     ],
     "bounds": {"quick": "event sequences of length 4 over 2 ops x 2 nodes, length 3 over 3 x 3, length 5 over 1 op x 2 nodes; each event register(op,node) or `ack op node` through process_request; each (op,node) registered at most once",
-               "thorough": "lengths 6 / 5 / 7"},
+               "thorough": "lengths 5 / 4 / 6"},
     "outside": "re-registration of the same (op, node); membership changes; concurrent register/ack (both sides serialise on the pending_opps write lock)",
     "assumptions": ["environment shims"],
 }
@@ -57,10 +57,10 @@ PROPS["C01"] = {
 PROPS["C17"] = {
     "level": "model_checking",
     "harnesses": [
-        {"name": "c17_events", "params": {"quick": {"events": 4, "sessions": 2}, "thorough": {"events": 5, "sessions": 3}}},
+        {"name": "c17_events", "params": {"quick": {"events": 4, "sessions": 2}, "thorough": {"events": 5, "sessions": 2}}},
     ],
     "bounds": {"quick": "all sequences of 4 events over 2 sessions and 2 databases; event in {use-db d1, use-db d2, use-db with a wrong token, a refused command, disconnect = unwatch-all + Client::left (the sequence of all three transports)}; a disconnected slot reconnects as a fresh session",
-               "thorough": "5 events, 3 sessions"},
+               "thorough": "5 events, 2 sessions"},
     "outside": "user-token sessions (same handler branch shape), interleaved sessions (the counter is an AtomicUsize behind a write lock), watcher notifications of $connections",
     "assumptions": ["environment shims"],
 }
@@ -221,4 +221,16 @@ PROPS["C03"] = {
                "thorough": "5 sequential events"},
     "outside": "three concurrently running actors (more than 200 000 schedules; not exhausted within the budget); two concurrent writers (the stale-final-view part of the property; the atomic set_value of C02 covers its cause); replicated writes",
     "assumptions": ["environment shims", "partial-order reduction: session locks, the database table and the metrics averages are not yield points (checked for contention)"],
+}
+
+PROPS["C07"] = {
+    "level": "model_checking",
+    "harnesses": [
+        {"name": "c07_election_2nodes", "fn": "c07_election", "params": {"quick": {"secondaries": 1, "triggers": 1, "deviations": 2, "budget": 600}, "thorough": {"secondaries": 1, "triggers": 1, "deviations": 3, "budget": 600}}, "budget_s": {"quick": 900, "thorough": 7200}},
+        {"name": "c07_election_2nodes_simultaneous", "fn": "c07_election", "params": {"quick": {"secondaries": 1, "triggers": 2, "deviations": 1, "budget": 600}, "thorough": {"secondaries": 1, "triggers": 2, "deviations": 2, "budget": 600}}, "budget_s": {"quick": 900, "thorough": 7200}},
+    ],
+    "bounds": {"quick": "cluster of 2 nodes (primary n1 older than n2) with the real start_election / election_eval / election_win / SetPrimary code; every connection handler is its own thread in cooperative mode (runs until it finishes or sleeps in an election wait loop), the real replication loops are polled, the supervisor arms election-win / primary / leave are mirrored (12 lines); triggers: debug force-election on a solver-chosen node, or on two nodes at once; delivery order: dedicated threads first, then connections in link order, with up to 2 (1 for simultaneous triggers) solver-chosen deviations to any other enabled event; a sleeping handler takes a timer tick only when nothing can be delivered; NUN_ELECTION_TIMEOUT = 2 ticks; at quiescence (within 600 scheduler steps; the longest run observed takes 161): exactly one primary, it is the older node, the other is secondary, both cluster-states name it",
+               "thorough": "3 (2) deviations"},
+    "outside": "3-node clusters (a forced election at the youngest node of a 3-node cluster did not quiesce within 1500 scheduler steps under this timing model - repeated timeouts and set-primary 'wars' because acknowledgements queue behind connection handlers that are themselves waiting in an election; not adjudicated as a defect, therefore neither claimed nor listed as a finding); node joins and primary death (need the supervisor's connection management, which is not sliced); lock-level preemption inside handlers",
+    "assumptions": ["environment shims", "cooperative scheduling: handlers are not preempted between sleeps", "the link pump mirrors handle_client / start_replication, the supervisor arms are mirrored"],
 }
